@@ -5,5 +5,7 @@ CONSTANTS
   DevArr = FALSE
   DevStale = FALSE
   DevEmpty = TRUE
+  Disturbs = FALSE
+  DevRows = FALSE
 INVARIANTS LengthInv StepOKModKnown
 CHECK_DEADLOCK FALSE
